@@ -138,10 +138,10 @@ class dhcp(packet_base):
         self.magic = self.MAGIC
         self._raw_options = b''
 
+        self.options = util.DirtyDict()
+
         if raw is not None:
             self.parse(raw)
-        else:
-            self.options = util.DirtyDict()
 
         self._init(kw)
 
